@@ -2818,6 +2818,10 @@ fn core_word_name(xs: &mut State) -> Xresult {
     xs.push_data(Cell::from(s))
 }
 
+#[cfg(feature = "verif_hooks")]
+#[path = "state_verif.rs"]
+pub mod verif;
+
 #[cfg(test)]
 mod tests {
     use super::*;
